@@ -41,7 +41,9 @@ type c15World struct {
 func c15Doc(idx int) string {
 	return fmt.Sprintf(`{"openapi":"3.0.3","info":{"title":"t","version":"1"},
 "paths":{"/items/{id}":{
- "parameters":[{"name":"id","in":"path","required":true,"schema":{"type":"integer"}}],
+ "parameters":[{"name":"id","in":"path","required":true,"schema":{"type":"integer"}},
+   {"name":"X-A","in":"header","schema":{"type":"string"}},{"name":"X-B","in":"header","schema":{"type":"string"}}],
+ "delete":{"parameters":[{"name":"confirm","in":"query","required":true,"schema":{"type":"boolean"}}],"responses":{"204":{"description":"gone"}}},
  "get":{"parameters":[{"name":"q","in":"query","schema":{"type":"array","items":{"type":"integer"}},"explode":false}],
         "responses":{"200":{"description":"ok","content":{"application/json":{"schema":{"$ref":"#/components/schemas/Item"}}}}}},
  "post":{"requestBody":{"required":true,"content":{"application/json":{"schema":{"$ref":"#/components/schemas/Item"}}}},
@@ -126,6 +128,9 @@ func c15Call(w *c15World, op string, v int, idx int) string {
 		return find(w.legacy)
 	case "vreq_params":
 		return validateReq(w.mux, mkReq("GET", []string{"/items/5?q=1,2", "/items/5?q=x"}[v%2], ""))
+	case "vreq_params_delete":
+		// another operation of the same path item with parameters of its own (the path item's list is shared)
+		return validateReq(w.mux, mkReq("DELETE", []string{"/items/5?confirm=true", "/items/5", "/items/5?confirm=false"}[v], ""))
 	case "vreq_body_pattern":
 		return validateReq(w.mux, mkReq("POST", "/items/5", []string{fmt.Sprintf(`{"id":1,"tags":["c%dpab"]}`, idx), `{"id":1,"tags":["zz"]}`, fmt.Sprintf(`{"id":1,"tags":["C%dPAB"]}`, idx)}[v]))
 	case "vreq_body_pattern_customregex":
